@@ -2,8 +2,10 @@ use vkit::engine::{drive_main, Args};
 
 pub mod c01;
 pub mod c02;
+pub mod c03;
 pub mod c04;
 pub mod c05;
+pub mod c06;
 pub mod c07;
 pub mod c08;
 pub mod c09;
@@ -34,8 +36,10 @@ pub fn dispatch(id: &str, args: &Args) -> i32 {
         "C01" => drive_main(&c01::C01, args),
         "C02" => drive_main(&c02::C02, args),
         "C17" => drive_main(&c02::C17, args),
+        "C03" => drive_main(&c03::C03, args),
         "C04" => drive_main(&c04::C04, args),
         "C05" => drive_main(&c05::C05, args),
+        "C06" => drive_main(&c06::C06, args),
         "C07" => drive_main(&c07::C07, args),
         "C08" => drive_main(&c08::C08, args),
         "C09" => drive_main(&c09::C09, args),
